@@ -665,6 +665,8 @@ func c19Prosumer(t *tr.Writer, c c19Case) {
 				okids = append(okids, id)
 			}
 			t.Emit(tr.Rec{"ev": "pubE", "m": m, "okids": okids})
+			// the reply to Subscribe is late: the running poll brings the greeting to the client first
+			time.Sleep(3 * time.Millisecond)
 		}
 	}
 	var seenU int64
